@@ -22,6 +22,8 @@ pub enum Op {
     WeakDrop,
     Subscribe { reset: bool },
     SubGet,
+    /// subscriber read guard (`read()`) held across a scheduling point
+    SubReadHold,
     SubNextNow,
     PollOnce,
     SubClone,
@@ -110,7 +112,13 @@ pub fn gen_program(prop: &str, seed: u64, index: u64) -> Program {
                         6 => Op::Subscribe { reset: g.chance(1, 3) },
                         7 => Op::SubNextNow,
                         8 => Op::PollOnce,
-                        _ => Op::SubGet,
+                        _ => {
+                            if g.chance(1, 2) {
+                                Op::SubGet
+                            } else {
+                                Op::SubReadHold
+                            }
+                        }
                     };
                     ops.push(o);
                 }
